@@ -36,6 +36,7 @@ def run(repo, report, tier):
     report.rule("C04.R8", "no two writers share a file: main() hands every output option to complain_about_duplicate_paths, and that function compares a normalised form of the path (so that two spellings of one file are recognised) and raises on a repeat",
                 "the same file is opened by two writers: one overwrites the other's records while the report counts both as written")
     report.guard("C04.R8", "duplicate output paths", r8_duplicate_paths, repo, report)
+    report.guard("C04.R8", "files opened for writing", r8_claimed_before_open, repo, report)
     from . import builder_rules
 
     report.rule("C04.R4", "on every builder path the steps list ends with a consuming sink (writer or demultiplexer) and nothing follows it",
@@ -514,3 +515,44 @@ def r8_duplicate_paths(repo, report):
     report.ob("C04.R8", "complain_about_duplicate_paths compares normalised paths", ok, facts=facts, loc=repo.loc(fn),
               expected="if norm(path) in seen: raise ...; seen.add(norm(path)) with norm = os.path.realpath (or Path.resolve): the form in which two names of one file are equal",
               why="" if ok else "paths are not compared in resolved form: 'out.fq' and \"$PWD/out.fq\" (or the same file through a symbolic link) name one file but pass the check, the file is opened twice and records of one writer overwrite the other's")
+
+
+def r8_claimed_before_open(repo, report):
+    """File names built from {name} templates are not known when the options are checked.  OutputFiles is the one place
+    every output file is opened: each open for writing must be preceded by a claim of the path, and the claim must refuse
+    a resolved path it has seen before (regular files only)."""
+    from ..repo import expand
+    cls = repo.cls("OutputFiles")
+    opens = []
+    for mname, fn in cls.methods.items():
+        for x in ast.walk(fn):
+            if isinstance(x, ast.Call) and (chain(x.func) or "").endswith(".xopen") and len(x.args) >= 2 and isinstance(x.args[1], ast.Constant) and str(x.args[1].value).startswith("w"):
+                opens.append((mname, fn, x))
+    unclaimed = []
+    claimers = set()
+    for mname, fn, x in opens:
+        pathv = chain(x.args[0])
+        claims = [c_ for c_ in ast.walk(fn) if isinstance(c_, ast.Call) and isinstance(c_.func, ast.Attribute) and chain(c_.func.value) == "self" and c_.args and chain(c_.args[0]) == pathv and c_.lineno < x.lineno
+                  and c_.func.attr in cls.methods and c_.func.attr != mname]
+        if not claims:
+            unclaimed.append(f"{mname}: {src(x)[:60]}")
+        claimers |= {c_.func.attr for c_ in claims}
+    report.ob("C04.R8", "OutputFiles: every file opened for writing is claimed first", bool(opens) and not unclaimed and len(claimers) == 1, facts={"opens": len(opens), "unclaimed": unclaimed[:3], "claim_method": sorted(claimers)}, loc=repo.loc(cls.node),
+              expected="self._claim(path) before each self._file_opener.xopen(path, 'w…')",
+              why=(f"{unclaimed[0]} opens a file without a duplicate check: a name produced by a {{name}} template that equals another output file name is opened twice, one writer overwrites the other and the reads are reported as written" if unclaimed else ""))
+    if len(claimers) != 1:
+        return
+    cm = cls.methods[next(iter(claimers))]
+    pv = params(cm)[1]
+    sets = {chain(x.comparators[0]) for x in ast.walk(cm) if isinstance(x, ast.Compare) and len(x.ops) == 1 and isinstance(x.ops[0], ast.In) and (chain(x.comparators[0]) or "").startswith("self.")}
+    adds = [x for x in ast.walk(cm) if isinstance(x, ast.Call) and isinstance(x.func, ast.Attribute) and x.func.attr == "add" and chain(x.func.value) in sets]
+    tests = [x for x in ast.walk(cm) if isinstance(x, ast.Compare) and len(x.ops) == 1 and isinstance(x.ops[0], ast.In) and chain(x.comparators[0]) in sets]
+
+    def resolved(e):
+        e = expand(cm, e)
+        return isinstance(e, ast.Call) and chain(e.func) in ("os.path.realpath", "realpath") and e.args and chain(e.args[0]) == pv
+
+    raises = any(isinstance(par, ast.If) and any(isinstance(r_, ast.Raise) for r_ in par.body) for t in tests for par in [getattr(t, "_parent", None)])
+    ok = len(tests) == 1 and len(adds) == 1 and resolved(tests[0].left) and resolved(adds[0].args[0]) and raises
+    report.ob("C04.R8", "OutputFiles: a claim refuses a path it has seen, in resolved form", ok, facts={"test": src(expand(cm, tests[0].left)) if tests else None, "stored": src(expand(cm, adds[0].args[0])) if adds else None, "raises": raises}, loc=repo.loc(cm),
+              expected="resolved = os.path.realpath(path); if resolved in self._claimed: raise ...; self._claimed.add(resolved)")
